@@ -44,6 +44,8 @@ class ScipyMatrix(Matrix):
             raise TypeError
         if other.shape[0] != self.shape[1]:
             raise MatrixError
+        if other.ndim > 2: # scipy's sparse product takes vectors and matrices only
+            return (self.core * other.reshape(other.shape[0], numpy.prod(other.shape[1:], dtype=int))).reshape(self.shape[0], *other.shape[1:])
         return self.core * other
 
     def __neg__(self):
